@@ -13,6 +13,8 @@ use std::ops::Bound;
 pub struct StrPair {
     pub b: Option<BString<'static>>,
     pub s: Option<String>,
+    /// strs returned by into_bump_str: valid and unchanged for the arena's life
+    pub frozen: Vec<(&'static str, String)>,
 }
 
 fn consume_chars<I: DoubleEndedIterator<Item = char>>(mut it: I, how: Consume) -> Ret {
@@ -80,7 +82,7 @@ impl<'a> Iterator for CharIter<'a> {
 
 impl StrPair {
     pub fn new() -> Self {
-        StrPair { b: None, s: None }
+        StrPair { b: None, s: None, frozen: Vec::new() }
     }
     fn ensure(&mut self, bump: &'static Bump) {
         if self.b.is_none() {
@@ -89,6 +91,7 @@ impl StrPair {
         }
     }
     pub fn drop_all(&mut self) {
+        self.frozen.clear();
         let b = self.b.take();
         let _ = b_call(move || drop(b));
         self.s = None;
@@ -96,6 +99,14 @@ impl StrPair {
 
     /// equal text, and the bumpalo side's bytes are valid UTF-8 (checked on the raw bytes)
     pub fn compare(&self) -> Result<(), (&'static str, String)> {
+        for (i, (got, want)) in self.frozen.iter().enumerate() {
+            if std::str::from_utf8(got.as_bytes()).is_err() {
+                return Err(("invalid-utf8", format!("str #{} returned by into_bump_str no longer holds UTF-8", i)));
+            }
+            if *got != want.as_str() {
+                return Err(("text-differs", format!("str #{} returned by into_bump_str changed afterwards", i)));
+            }
+        }
         match (&self.b, &self.s) {
             (None, None) => Ok(()),
             (Some(b), Some(s)) => {
@@ -208,7 +219,17 @@ impl StrPair {
             SOp::IntoBumpStr => {
                 let b = self.b.take().unwrap();
                 let s = self.s.take().unwrap();
-                let rb = b_call(move || Ret::Text(b.into_bump_str().to_string()));
+                let mut kept: Option<&'static str> = None;
+                let rb = b_call(|| {
+                    let r: &'static str = b.into_bump_str();
+                    kept = Some(r);
+                    Ret::Text(r.to_string())
+                });
+                if let (Some(r), Ok(Ret::Text(t))) = (kept, &rb) {
+                    if self.frozen.len() < 8 {
+                        self.frozen.push((r, t.clone()));
+                    }
+                }
                 let rs = s_call(move || Ret::Text(s));
                 return OpOutcome { b: rb, s: rs, extra: None };
             }
